@@ -1,8 +1,9 @@
 (* C02 -- property theorems only; each closed by `exact` and followed by Print Assumptions.
    Labels are SF.Value.val in canonical form (Python equality = structural equality); a key is a
    pair (label, its Python class is an integer type).  M_* model static_frame/core/index.py. *)
-Require Import SF.Prelude SF.Value SF.PySlice SF.IndexBij SF.IndexBijVal
-  Proofs.IndexBijFacts Proofs.IndexBijMain Proofs.IndexBijVal.
+Require Import SF.Prelude SF.Value SF.PySlice SF.IndexBij SF.IndexBijVal SF.IxTree SF.IxTreeVal
+  Proofs.IndexBijFacts Proofs.IndexBijMain Proofs.IndexBijGO Proofs.IndexBijDerive Proofs.IndexBijVal
+  Proofs.IxTreeIns Proofs.IxTreeBuild Proofs.IxTreeLookup Proofs.IxTreeVal.
 
 (* Index(labels), observed through values / iteration / reversed / len / positions / iloc / loc_to_iloc
    / `in` for ANY probe keys, is exactly the specification "the index is the label list" -- including
@@ -28,3 +29,90 @@ Theorem C02_index_bijection : forall (l : list val) (ix : index val), M_index_in
   (forall k, ~ In (fst k) l -> M_loc_to_iloc val_eqb vto_Z ix k = Err "KeyError").
 Proof. exact v_index_bijection. Qed.
 Print Assumptions C02_index_bijection.
+
+(* auto-integer index (no hash map at all: labels ARE positions): bijection for its own labels *)
+Theorem C02_auto_bijection : forall n : nat,
+  NoDup (ix_labels (M_index_auto VInt n)) /\
+  (forall i, (i < n)%nat -> nth_error (ix_labels (M_index_auto VInt n)) i = Some (VInt (Z.of_nat i))) /\
+  (forall i, (i < n)%nat -> M_loc_to_iloc val_eqb vto_Z (M_index_auto VInt n) (VInt (Z.of_nat i), KInt) = Ok (Z.of_nat i)) /\
+  (forall z, M_contains val_eqb vto_Z (M_index_auto VInt n) (VInt z, KInt) = true <-> 0 <= z < Z.of_nat n).
+Proof. exact v_auto_bijection. Qed.
+Print Assumptions C02_auto_bijection.
+
+(* ... and it is observationally the specification index over [0..n-1] for every probe inside the
+   guard auto_key_ok (outside it: Refuted/C02.v, findings C02-auto-negative-key / C02-auto-float-key) *)
+Theorem C02_auto_refines : forall (n : nat) (probes : list (key val)),
+  forallb (auto_key_ok val vto_Z n) probes = true ->
+  M_auto val_eqb VInt vto_Z n probes = S_auto val_eqb VInt n probes.
+Proof. exact v_auto_refines. Qed.
+Print Assumptions C02_auto_refines.
+
+(* grow-only index, started from IndexGO(labels) or from an auto-integer IndexGO: after ANY history of
+   append / extend / reader calls inside the guard go_dom, the state is a bijection (go_wf: labels
+   distinct, count = length, map = positions or labels = 0..n-1) and holds exactly the labels of the
+   specification list, every single outcome (accepted / rejected) agreeing *)
+Theorem C02_go_history : forall (g : go val) (ops : list (op val)),
+  (exists l, M_go_init val_eqb l = Ok g) \/ (exists n, g = M_go_auto VInt n) ->
+  go_dom val_eqb vto_Z g ops = true ->
+  vgo_wf (fst (M_go_run val_eqb vto_Z g ops)) /\
+  (g_mut (fst (M_go_run val_eqb vto_Z g ops)), map is_ok (snd (M_go_run val_eqb vto_Z g ops)))
+    = S_go_run val_eqb (g_mut g) ops.
+Proof. exact v_go_history. Qed.
+Print Assumptions C02_go_history.
+
+(* the specification history: labels stay distinct and the initial labels stay a prefix, in order *)
+Theorem C02_go_labels_laws : forall (ops : list (op val)) (l : list val), NoDup l ->
+  NoDup (fst (S_go_run val_eqb l ops)) /\ exists added, fst (S_go_run val_eqb l ops) = l ++ added.
+Proof. exact v_go_labels_laws. Qed.
+Print Assumptions C02_go_labels_laws.
+
+(* a grown index in a bijection state is observationally the specification index over its labels
+   (map-less state: only once a reader has refreshed the cache -- finding C02-autogo-stale-positions) *)
+Theorem C02_go_observe : forall (g : go val) (probes : list (key val)),
+  vgo_wf g -> go_cold_ok val g = true -> forallb (go_probe_ok val vto_Z g) probes = true ->
+  M_go_observe val_eqb vto_Z g probes = S_observe val_eqb (g_mut g) probes.
+Proof. exact v_go_observe. Qed.
+Print Assumptions C02_go_observe.
+
+(* IndexHierarchy.from_labels (dict-tree walk with the shared observed_last list, levels with relative
+   offsets, leaf_loc_to_iloc adding offsets): observed through every reader it is exactly the
+   specification "the index is the label table", accepted iff the labels have one depth >= 2, are
+   pairwise distinct and tree-ordered; for every label table and all probe keys that are not longer
+   than the depth (longer keys: finding C02-hier-contains-overlong) *)
+Theorem C02_hier_refines : forall (labs probes : list (list val)),
+  probes_ok val labs probes = true ->
+  M_from_labels_obs val_eqb labs probes = S_from_labels val_eqb labs probes.
+Proof. exact v_from_labels_refines. Qed.
+Print Assumptions C02_hier_refines.
+
+(* every accepted hierarchical index lists the labels in the given order and is an exact bijection *)
+Theorem C02_hier_bijection : forall (labs : list (list val)) (lv : level val),
+  M_from_labels val_eqb labs = Ok lv ->
+  flatten lv = labs /\ NoDup labs /\ lv_len lv = zlen labs /\
+  (forall i key, nth_error labs i = Some key -> M_leaf_loc_to_iloc val_eqb lv key = Ok (Z.of_nat i)) /\
+  (forall key z, M_leaf_loc_to_iloc val_eqb lv key = Ok z -> 0 <= z /\ nth_error labs (Z.to_nat z) = Some key) /\
+  (forall key, ~ In key labs -> M_leaf_loc_to_iloc val_eqb lv key = Err "KeyError").
+Proof. exact v_from_labels_bijection. Qed.
+Print Assumptions C02_hier_bijection.
+
+(* derivations build their result through the constructor on computed labels; the label computations
+   keep an index an index: selection by positions is accepted exactly when no position repeats *)
+Theorem C02_derive_select : forall (l : list val) (ps : list Z) (l' : list val),
+  NoDup l -> S_select l ps = Some l' ->
+  ((exists ix, M_index_init val_eqb l' = Ok ix) <-> NoDup ps).
+Proof. exact v_derive_select. Qed.
+Print Assumptions C02_derive_select.
+
+(* dropping positions: always accepted, holds exactly the labels at the other positions *)
+Theorem C02_derive_drop : forall (l : list val) (ps : list Z), NoDup l ->
+  (exists ix, M_index_init val_eqb (S_drop l ps) = Ok ix) /\
+  forall x, In x (S_drop l ps) <-> exists j, nth_error l j = Some x /\ ~ In (Z.of_nat j) ps.
+Proof. exact v_derive_drop. Qed.
+Print Assumptions C02_derive_drop.
+
+(* roll: always accepted, a permutation of the same labels *)
+Theorem C02_derive_roll : forall (l : list val) (shift : Z), NoDup l ->
+  (exists ix, M_index_init val_eqb (S_roll l shift) = Ok ix) /\
+  Permutation l (S_roll l shift) /\ length (S_roll l shift) = length l.
+Proof. exact v_derive_roll. Qed.
+Print Assumptions C02_derive_roll.
